@@ -14,7 +14,7 @@ def run(tier, seed):
     n5 = [gen_heap.history_program(i) for i in gen_heap.histories(6, rng, 500 if quick else 10000)]
     laws = list(gen_heap.law_programs())
     cm = list(gen_heap.copy_matrix())
-    fams = [("cm", cm, 0, 0, ("top", "fn0")), ("h2", n2, 0, 0, ("top",)), ("h3", n3, 0, 0, ("top",)), ("h6", n5, 0, 1, ("top", "fn0")), ("law", laws, 0, 0, ("top",))]
+    fams = [("cm", cm, 0, 0, ("top", "fn0")), ("dm", list(gen_heap.derive_matrix()), 0, 0, ("top", "fn0")), ("h2", n2, 0, 0, ("top",)), ("h3", n3, 0, 0, ("top",)), ("h6", n5, 0, 1, ("top", "fn0")), ("law", laws, 0, 0, ("top",))]
     rep, preds, progs = core_replay.family_check(
         PROP, tier, seed, fams,
         rule="histories: sequences of 2 / 3 / 6 actions over a %d-action alphabet on three variables (constructors, aliasing, "
